@@ -280,7 +280,7 @@ pub fn gen_typed_input(rng: &mut Rng, large: bool) -> Vec<String> {
         let r = if large { format!("{}", (x as f64) * 0.25 - 2.0) } else { (*rng.pick(&["0.5", "1.5", "-2.25", "100", "3", "8", "0.25"])).to_owned() };
         let s = if large { format!("s{}", x) } else { (*rng.pick(&["x", "y", "hello", "q q", "10"])).to_owned() };
         let b = (*rng.pick(&["true", "false"])).to_owned();
-        let iv = if large { format!("{}:{:02}:{:02}", x / 7, (x * 13) % 60, (x * 29) % 60) } else { (*rng.pick(&["0:00:10", "1:02:03", "0:30:00", "2:00:00", "10:00:01", "0:00:00"])).to_owned() };
+        let iv = if large { format!("{}:{:02}:{:02}", x / 7, (x * 13) % 60, (x * 29) % 60) } else { (*rng.pick(&["0:00:10", "1:02:03", "0:30:00", "2:00:00", "10:00:01", "0:00:00", "0:00:10", "2:00:00", "1000000:00:00", "2500000:30:00"])).to_owned() };  // the last two: a few of them sum to more than 2^63 ns (still far inside chrono's range)
         let y = rng.below(if large { pool } else { 6 }) as i64;
         let ts = format!("{}-{:02}-{:02} {:02}:{:02}:{:02}", 1999 + y % 3 * 10, 1 + y % 12, 1 + (y * 5) % 28, y % 24, (y * 7) % 60, (y * 11) % 60);
         let mut f: Vec<String> = vec![keys[ki].to_owned(), v, w, r, s, b, iv, ts];
